@@ -717,3 +717,39 @@ func ruleAllocScansAll(r *Run) {
 	}
 	r.Min("id_scanning_loops", n, 1)
 }
+
+// ---------------------------------------------------------------------------
+// R-SAVE-TRUNCATE (C01, C05): the file Save writes the archive into must start empty.  Opening
+// an existing, longer file without O_TRUNC leaves the old tail (with the old central directory)
+// after the new archive: the result is not a readable ZIP although every write succeeded.
+// ---------------------------------------------------------------------------
+
+func ruleSaveTruncate(r *Run) {
+	p := r.P
+	root := r.mustFunc(pkgDoc, "(*Document).Save")
+	if root == nil {
+		return
+	}
+	n := 0
+	for _, fn := range sortedFuncs(p.staticReach(root)) {
+		allInstrs(fn, func(in ssa.Instruction) {
+			c, ok := in.(ssa.CallInstruction)
+			if !ok {
+				return
+			}
+			switch calleeName(c) {
+			case "os.Create":
+				n++
+				r.Check("save-truncate", shortName(fn)+":os.Create", c.Pos(), true, "os.Create truncates an existing file")
+			case "os.OpenFile":
+				n++
+				flag, isConst := constInt(c.Common().Args[1])
+				const oTRUNC, oEXCL, oAPPEND = 0x200, 0x80, 0x400
+				okc := isConst && (flag&oTRUNC != 0 || flag&oEXCL != 0) && flag&oAPPEND == 0
+				r.Check("save-truncate", shortName(fn)+":os.OpenFile", c.Pos(), okc,
+					fmt.Sprintf("os.OpenFile flags=%#x (constant=%v): without O_TRUNC (or O_EXCL) an existing longer file keeps its tail after the new archive and the saved package is unreadable", flag, isConst))
+			}
+		})
+	}
+	r.Min("file_creations_in_save", n, 1)
+}
